@@ -6,10 +6,10 @@ From Coq Require Import ExtrOcamlBasic.
 From Coq Require Import ZArith List.
 From Segno Require Import Base.PyLite Ref.Geometry Ref.MaskCond Ref.Bch.
 From Segno Require Import Ref.Classify Ref.Decoder Ref.Spec.
-From Segno Require Import Model.Bits Model.Segment Model.Version Model.Stream Model.Matrix Model.Encode Model.Sequence.
+From Segno Require Import Model.Bits Model.Segment Model.Version Model.Stream Model.Matrix Model.Encode Model.Sequence Model.Args.
 Cd "build/ocaml".
 Extraction "model.ml" Classify.classify_matrix Classify.kf_fmt_col Classify.align_aux_matrix
-  Encode.encode Encode.encode_core Sequence.encode_sequence Sequence.chunk_overflows Sequence.divide_into_chunks Segment.make_segment Segment.find_mode Version.find_version Version.boost_error_level
+  Encode.encode Encode.encode_core Args.encode_args Args.normalize_version Args.normalize_mode Args.normalize_mask Args.normalize_errorlevel Sequence.encode_sequence Sequence.chunk_overflows Sequence.divide_into_chunks Segment.make_segment Segment.find_mode Version.find_version Version.boost_error_level
   Version.bit_length_with_overhead Stream.make_final_message Matrix.mask_scores Matrix.evaluate_micro_mask
   Decoder.decode_symbol Decoder.read_blocks Decoder.read_format Decoder.read_stream
   Spec.c02_check Spec.c03_check Spec.c13_check Spec.candidate_scores Spec.iso_best_mask Spec.spec_mode
